@@ -100,6 +100,10 @@ func run(c Case) *pbt.Fail {
 		var donor interface{}
 		if c.Perturb == "proof-same" {
 			donor = in.prove(ctx("s1", "prover", false)) // same statement, fresh prover randomness
+			// completeness is not a one-shot property: a second proof from the same witness objects verifies as well
+			if donor == nil || reflect.ValueOf(donor).IsNil() || !accepts(func() bool { return in.verify(ctx("s1", "prover", false), donor) }) {
+				return pbt.Failf("incomplete:second-proof:"+c.System, "a second honestly generated proof from the same statement and witness does not verify ("+wc+")")
+			}
 		} else {
 			w2 := c.W
 			w2.Seed += 1000003
